@@ -1135,7 +1135,9 @@ class Forall(BeginStatement):
     name = ""
 
     def process_item(self):
-        self.specs = self.item.get_line()[6:].lstrip()[1:-1].strip()
+        self.specs = self.item.apply_map(
+            self.item.get_line()[6:].lstrip()[1:-1].strip()
+        )
         return BeginStatement.process_item(self)
 
     def tostr(self):
@@ -1392,7 +1394,7 @@ class Associate(BeginStatement):
 
     def process_item(self):
         line = self.item.get_line()[9:].lstrip()
-        self.associations = line[1:-1].strip()
+        self.associations = self.item.apply_map(line[1:-1].strip())
         return BeginStatement.process_item(self)
 
     def tostr(self):
@@ -1453,7 +1455,7 @@ class Type(
         if i != -1:
             self.name = line[:i].rstrip()
             assert line[-1] == ")", repr(line)
-            self.params = split_comma(line[i + 1 : -1].lstrip())
+            self.params = split_comma(line[i + 1 : -1].lstrip(), self.item)
         else:
             self.name = line
             self.params = []
